@@ -9,6 +9,7 @@ CONSTANTS
   MaxLife = 6
   MaxDims = 2
   MaxSteps = 0
+  MaxGen = 0
   EmitActs = {"Create", "CreateBad", "Delete", "DeleteAbsent", "AddLink", "RemoveLink", "SetOne", "SetAttr", "SetType", "SetDef", "AppendDim", "DeleteDims", "Flush", "Close", "Crash", "Open"}
   EmitRes = "any"
   EmitWhen = "always"
